@@ -135,6 +135,7 @@ func c13Menu() []c13op {
 		{"CreateMultiProof(n=1)", []uint8{9}, []int{10}, nil, false},
 		{"CreateMultiProof(n=2 sharing an index)", []uint8{77, 77}, []int{12, 13}, nil, false},
 		{"CreateMultiProof(n=3, non-normalised commitments, shared pointer)", []uint8{5, 200, 5}, []int{10, 12, 10}, []int{reprProj, reprProjFlip, reprProj}, true},
+		{"CreateMultiProof(n=4, commitment pointers [A,A,B,A])", []uint8{5, 6, 200, 7}, []int{10, 10, 12, 10}, []int{reprProj, reprProj, reprProjFlip, reprProj}, false},
 	} {
 		m := m
 		add(m.name, func(c *ipa.IPAConfig, seed int64) ([]interface{}, func() string, func() string) {
@@ -151,8 +152,12 @@ func c13Menu() []c13op {
 				if m.share && i == 2 {
 					Cs[2] = Cs[0]
 				}
+				if len(m.zs) == 4 && (i == 1 || i == 3) {
+					Cs[i] = Cs[0]
+				}
 				before[i] = *Cs[i]
 			}
+			ptrs := append([]*banderwagon.Element(nil), Cs...)
 			zs := append(make([]uint8, 0, len(m.zs)+2), m.zs...)
 			return []interface{}{&fs, &zs}, func() string {
 					p, err := multiproof.CreateMultiProof(common.NewTranscript("vt"), c, Cs, fs, zs)
@@ -162,6 +167,9 @@ func c13Menu() []c13op {
 					return dg(hx(proofBytes(p)))
 				}, func() string {
 					for i := range Cs {
+						if Cs[i] != ptrs[i] {
+							return fmt.Sprintf("the caller's slice of commitment pointers was rearranged (entry %d)", i)
+						}
 						if !Cs[i].Equal(&before[i]) || Cs[i].Bytes() != before[i].Bytes() {
 							return fmt.Sprintf("commitment %d changed its value", i)
 						}
@@ -412,8 +420,14 @@ func c13Menu() []c13op {
 	add("fr codecs and string conversions", func(c *ipa.IPAConfig, seed int64) ([]interface{}, func() string, func() string) {
 		b1 := append(make([]byte, 0, 48), be32(new(big.Int).Sub(pow2(256), bi(9)))...)
 		b2 := append(make([]byte, 0, 48), be32(prfR(seed, "c13", 6))...)
-		return []interface{}{&b1, &b2}, func() string {
+		b3 := append(make([]byte, 0, 80), be32(prfR(seed, "c13", 8))...)
+		b3 = append(b3, 1, 2, 3, 4, 5, 6, 7, 8) // a 40-byte little-endian string
+		return []interface{}{&b1, &b2, &b3}, func() string {
 			var x, y, z, w fr.Element
+			var u, v fr.Element
+			u.SetBytesLE(b3)
+			v.SetBytes(b3)
+			_, _ = u.SetBytesLECanonical(b3)
 			x.SetBytes(b1)
 			y.SetBytesLE(b2)
 			_, err := z.SetBytesLECanonical(b2)
@@ -452,7 +466,7 @@ func c13Probe(c *ipa.IPAConfig, seed int64) string {
 func init() {
 	core.Register(&core.Check{
 		ID: "C13", Level: "model_checking",
-		Rule:   "explicit-state search on the fingerprint of everything shared and mutable (deep reflect/unsafe hash of the IPAConfig incl. all precomputed tables, and of every package-level variable: generator, identities, labels, moduli, sqrt tables ...): a menu of 30 API calls with fresh arguments is applied from every reachable state; after EVERY call the shared fingerprint must equal the initial one (on a pure tree the state space is one state with 30 self-loops and the search completes), every caller-supplied argument must be bit-identical to its pre-call deep copy up to slice capacity (commitments given to CreateMultiProof may only change representation), and each call's result digest must equal its result on a fresh process state; the same argument buffers refilled with different content must give the results of fresh arguments (nothing remembered per address); then ALL histories of depth 2 (3 thorough) over the menu with the same checks and a probe call at the end; a state is a distinct shared fingerprint, a transition one API call",
+		Rule:   "explicit-state search on the fingerprint of everything shared and mutable (deep reflect/unsafe hash of the IPAConfig incl. all precomputed tables, and of every package-level variable: generator, identities, labels, moduli, sqrt tables ...): a menu of 31 API calls with fresh arguments is applied from every reachable state; after EVERY call the shared fingerprint must equal the initial one (on a pure tree the state space is one state with 31 self-loops and the search completes), every caller-supplied argument must be bit-identical to its pre-call deep copy up to slice capacity (commitments given to CreateMultiProof may only change representation), and each call's result digest must equal its result on a fresh process state; the same argument buffers refilled with different content must give the results of fresh arguments (nothing remembered per address); then ALL histories of depth 2 (3 thorough) over the menu with the same checks and a probe call at the end; a state is a distinct shared fingerprint, a transition one API call",
 		Assume: []string{"the fingerprint covers memory reachable from the config and from the exported/unexported package variables of go-ipa (gnark-crypto internals are outside)", "result digests are deterministic functions of the inputs (established by C03)"},
 		Units:  c13Units,
 	})
